@@ -80,7 +80,29 @@ def _make_body():
                         dispatch.add(tuple(_enc(s)))
     body = ''.join(_row('CALLSITES', r) for r in sorted(callsites))
     body += ''.join(_row('DISPATCH', r) for r in sorted(dispatch))
+    # (call id, payload size accepted by srpc_getdata) of the calls a device handles: only for the case generator (json)
+    for cid, size in VALID_SIZES:
+        body += '  fprintf(stdout, "L VALIDSIZES %%d %%d\\n", (int)(%s), (int)(%s));\n' % (cid, size)
     return body
+
+VALID_SIZES = [
+    ('SUPLA_SDC_CALL_VERSIONERROR', 'sizeof(TSDC_SuplaVersionError)'),
+    ('SUPLA_SDC_CALL_SET_ACTIVITY_TIMEOUT_RESULT', 'sizeof(TSDC_SuplaSetActivityTimeoutResult)'),
+    ('SUPLA_SD_CALL_GET_FIRMWARE_UPDATE_URL_RESULT', 'sizeof(TSD_FirmwareUpdate_UrlResult)'),
+    ('SUPLA_SD_CALL_GET_FIRMWARE_UPDATE_URL_RESULT', 'sizeof(char)'),
+    ('SUPLA_CSD_CALL_GET_CHANNEL_STATE', 'sizeof(TCSD_ChannelStateRequest)'),
+    ('SUPLA_SDC_CALL_PING_SERVER_RESULT', 'sizeof(TSDC_SuplaPingServerResult)'),
+    ('SUPLA_SDC_CALL_GETVERSION_RESULT', 'sizeof(TSDC_SuplaGetVersionResult)'),
+    ('SUPLA_SD_CALL_REGISTER_DEVICE_RESULT', 'sizeof(TSD_SuplaRegisterDeviceResult)'),
+    ('SUPLA_SD_CALL_CHANNEL_SET_VALUE', 'sizeof(TSD_SuplaChannelNewValue)'),
+    ('SUPLA_SD_CALL_CHANNELGROUP_SET_VALUE', 'sizeof(TSD_SuplaChannelGroupNewValue)'),
+    ('SUPLA_SD_CALL_GET_CHANNEL_FUNCTIONS_RESULT', 'sizeof(TSD_ChannelFunctions) - sizeof(_supla_int_t) * SUPLA_CHANNELMAXCOUNT'),
+    ('SUPLA_SD_CALL_SET_CHANNEL_CONFIG', 'sizeof(TSD_ChannelConfig) - SUPLA_CHANNEL_CONFIG_MAXSIZE'),
+    ('SUPLA_SD_CALL_GET_CHANNEL_CONFIG_RESULT', 'sizeof(TSD_ChannelConfig) - SUPLA_CHANNEL_CONFIG_MAXSIZE'),
+    ('SUPLA_SD_CALL_CHANNEL_CONFIG_FINISHED', 'sizeof(TSD_ChannelConfigFinished)'),
+    ('SUPLA_SD_CALL_SET_CHANNEL_CONFIG_RESULT', 'sizeof(TSDS_SetChannelConfigResult)'),
+    ('SUPLA_DCS_CALL_GET_USER_LOCALTIME_RESULT', 'sizeof(TSDC_UserLocalTimeResult) - SUPLA_TIMEZONE_MAXSIZE'),
+]
 
 class _LazyGroup(dict):
     """the call-site scan runs only when this group is actually generated"""
